@@ -344,7 +344,11 @@ def run_impl(case):
             with th.no_grad():
                 obs_t, _ = pol.obs_to_tensor(bm)
                 raw = pol._predict(obs_t, deterministic=True).cpu().numpy()
-                act_raw = pol.actor(obs_t, deterministic=True).cpu().numpy() if hasattr(pol, "actor") and algo in ("SAC", "TD3", "DDPG") else None
+                act_raw = None
+                if algo == "SAC":
+                    act_raw = pol.actor(obs_t, deterministic=True).cpu().numpy()
+                elif algo in ("TD3", "DDPG"):
+                    act_raw = pol.actor(obs_t).cpu().numpy()
             pred = model.predict(bm, deterministic=True)[0]
             extra["lowlevel"] = {"raw_shape": list(raw.shape), "raw": raw.reshape(n, -1)[0].astype(np.float64).tolist(), "pred": np.asarray(pred).reshape(n, -1)[0].astype(np.float64).tolist(),
                                  "lo": np.asarray(ac.low, dtype=np.float64).reshape(-1).tolist(), "hi": np.asarray(ac.high, dtype=np.float64).reshape(-1).tolist(),
